@@ -71,7 +71,25 @@ type Frame struct {
 	Overhead int    // bytes of cipher header/tag
 }
 
+var (
+	blockCache = map[string]cipher.Block{}
+	xorCache   = map[string][]byte{}
+	gcmCache   = map[string]cipher.AEAD{}
+)
+
 func block(name string, key []byte) (cipher.Block, error) {
+	ck := name + "|" + string(key)
+	if b, ok := blockCache[ck]; ok {
+		return b, nil
+	}
+	b, err := newBlock(name, key)
+	if err == nil {
+		blockCache[ck] = b
+	}
+	return b, err
+}
+
+func newBlock(name string, key []byte) (cipher.Block, error) {
 	switch name {
 	case "aes":
 		return aes.NewCipher(key)
@@ -100,13 +118,17 @@ func Decrypt(c Config, dg []byte) (body, nonce []byte, overhead int, ok bool, er
 	case "":
 		return dg, nil, 0, true, nil
 	case "aes-gcm":
-		b, e := aes.NewCipher(c.Key)
-		if e != nil {
-			return nil, nil, 0, false, e
-		}
-		g, e := cipher.NewGCM(b)
-		if e != nil {
-			return nil, nil, 0, false, e
+		g, ok := gcmCache[string(c.Key)]
+		if !ok {
+			b, e := aes.NewCipher(c.Key)
+			if e != nil {
+				return nil, nil, 0, false, e
+			}
+			g, e = cipher.NewGCM(b)
+			if e != nil {
+				return nil, nil, 0, false, e
+			}
+			gcmCache[string(c.Key)] = g
 		}
 		ns := g.NonceSize()
 		if len(dg) < ns+g.Overhead() {
@@ -126,7 +148,11 @@ func Decrypt(c Config, dg []byte) (body, nonce []byte, overhead int, ok bool, er
 	case "none":
 		copy(pt, dg)
 	case "xor":
-		tbl := pbkdf2.Key(c.Key, []byte(`sH3CIVoF#rWLtJo6`), 32, 1500, sha1.New)
+		tbl, ok := xorCache[string(c.Key)]
+		if !ok {
+			tbl = pbkdf2.Key(c.Key, []byte(`sH3CIVoF#rWLtJo6`), 32, 1500, sha1.New)
+			xorCache[string(c.Key)] = tbl
+		}
 		for i := range dg {
 			pt[i] = dg[i] ^ tbl[i]
 		}
